@@ -24,6 +24,7 @@ type OblResult struct {
 	Output string
 	Points int
 	Tags   []string
+	Peer   bool
 }
 
 type FuncResult struct {
